@@ -262,6 +262,34 @@ def rw_for_continue(text, log):
     return text, extras
 
 
+def rw_loop_break_head(text, log):
+    """R13: `loop { if C { break; } REST }` -> `while !(C) { REST }` (definitional identity; Verus learns the exit condition of a `while`,
+    not of a `loop` whose first statement breaks).  Applied automatically; only this exact shape."""
+    while True:
+        st = rtok.sig(rtok.lex(text))
+        hit = None
+        for i in range(len(st) - 8):
+            if st[i][0] == 'ident' and st[i][1] == 'loop' and st[i + 1][1] == '{' and st[i + 2][1] == 'if' and st[i - 1][1] not in ('.', '::'):
+                # condition runs to the `{` of the if
+                j = i + 3
+                while st[j][1] != '{':
+                    if st[j][1] in ('(', '['):
+                        j = rtok.match_close(st, j)
+                    j += 1
+                close = rtok.match_close(st, j)
+                inner = [t[1] for t in st[j + 1:close]]
+                if inner in (['break', ';'], ['break']) and st[close + 1][1] != 'else':
+                    hit = (i, j, close)
+                    break
+        if hit is None:
+            return text
+        i, j, close = hit
+        cond = text[st[i + 3][2]:st[j - 1][3]]
+        spans = [(st[i][2], st[i + 1][2], 'while !(%s) ' % cond), (st[i + 2][2], st[close][3], '')]
+        log.append('R13 `loop { if %s { break; } .. }` -> `while !(%s) { .. }`' % (' '.join(cond.split()), ' '.join(cond.split())))
+        text = _replace_spans(text, spans)
+
+
 def rw_vecslice(text, names, log):
     """R8: `&mut NAME[` -> `&mut NAME.as_mut_slice()[` ; `&NAME[` -> `&NAME.as_slice()[`"""
     st = rtok.sig(rtok.lex(text))
@@ -501,6 +529,7 @@ def build_fn(fs, repo, effectful, table_keys, canary=False):
         else:
             raise specmod.SpecError('%s: unknown rewrite %s' % (origin, kind))
 
+    text = rw_loop_break_head(text, log)
     text, r12 = rw_for_continue(text, log)
     for n, (inv_t, dec_t) in r12.items():
         lp = fs.loops.setdefault(n, specmod.Loop(n))
